@@ -102,8 +102,12 @@ def list_join_clause(segment: BaseSegment) -> list[BaseSegment]:
                 else:
                     # no join at top level, and there is select statement in from_clause
                     return []
-        # otherwise, recursively find join_clause
-        return list(segment.recursive_crawl("join_clause"))
+        # otherwise, recursively find join_clause, but a join inside a subquery belongs to that subquery
+        return list(
+            segment.recursive_crawl(
+                "join_clause", no_recursive_seg_type="select_statement"
+            )
+        )
     return []
 
 
